@@ -39,6 +39,32 @@ def outcome_of_translate(sheets, entry):
         return 'E' + core.exc_class(e), None
 
 
+def retry_outcome(sheets, entry):
+    """two consecutive get_translation() calls on one parser: -> (outcome 1, outcome 2) with outcome = 'T<sha>' | 'E<class>' | 'N' (None returned)"""
+    import hashlib
+    m = realcode.mods()
+    excel = realcode.make_excel(sheets)
+    Excel = m['Excel']
+    orig = Excel.__dict__['parse']
+    Excel.parse = classmethod(lambda cls, path: excel)
+    outs = []
+    try:
+        p = m['Parser']().set_excel_file_path('<memory>')
+        if entry is not None:
+            p.set_entrypoint_cell(m['Cell'](*entry))
+        for _ in range(2):
+            try:
+                t = p.get_translation()
+                outs.append('N' if t is None else 'T' + hashlib.sha256(t.encode('utf-8')).hexdigest()[:12])
+            except RecursionError:
+                outs.append('ERecursionError')
+            except Exception as e:  # noqa
+                outs.append('E' + core.exc_class(e))
+    finally:
+        Excel.parse = orig
+    return outs
+
+
 def check_class(chk, text, sheets, entry, what):
     """compiles, defines the class with the workbook's titles and sizes, one evaluable member per translated cell"""
     try:
@@ -114,6 +140,13 @@ def run(tier, seed):
         if out != 'ok':
             if out[1:] not in LIB:
                 chk.violation({'why': 'translation ends with a foreign exception', 'formula': f, 'impl': out, 'stream': 'translate-outcome'})
+            elif sum(map(ord, f)) % 3 == 0:
+                # asking again without changing anything: the same library exception, never None / a foreign exception / some earlier text
+                o1, o2 = retry_outcome(sheets, (0, 3, 3))
+                chk.count('retry-after-failure')
+                if o1 != o2:
+                    chk.violation({'why': 'a translation that failed answers differently when asked again (nothing was changed in between)', 'formula': f,
+                                   'first': o1, 'second': o2, 'stream': 'retry'})
         else:
             cls = check_class(chk, text, sheets, (0, 3, 3), f)
             if cls is not None:
@@ -364,6 +397,25 @@ def file_vs_object(chk, rng):
                         if a != b:
                             chk.violation({'why': 'the class behaves differently when loaded from the written file and when used as a class object',
                                            'cell': (s, c, r), 'file': a, 'object': b, 'stream': 'file-vs-object'})
+            # a second pair of executors on the same file / the same class object, after the first pair was given an override far outside the used range:
+            # whatever the first pair did to itself must not show in the second, whichever way the class was loaded
+            cls_obj = realcode.load_class(text)
+            for label, make in (('file', lambda: m['Executor']().set_executed_class(class_file=out)),
+                                ('object', lambda: m['Executor']().set_executed_class(class_object=cls_obj))):
+                first = make()
+                first.set_cells([m['Cell']('Main', 9, 14, 42)])
+                first.get_cell(m['Cell']('Main', 0, 0))
+                second = make()
+
+                def shape(ex):
+                    g = ex.get_sheet('Main')
+                    return 'G%dx%d' % (len(g), len(g[0]) if g else 0), core.outcome(lambda: ex.get_cell(m['Cell']('Main', 9, 14)).value)
+                got = core.outcome(lambda: repr(shape(second)))
+                want = core.outcome(lambda: repr(shape(m['Executor']().set_executed_class(class_object=realcode.load_class(text)))))
+                chk.count('file-vs-object:fresh-after-use')
+                if got != want:
+                    chk.violation({'why': 'an executor made after another executor of the same class was used does not start from the translated workbook',
+                                   'loaded_as': label, 'impl': got, 'fresh_class': want, 'stream': 'file-vs-object'})
     finally:
         shutil.rmtree(d, ignore_errors=True)
 
